@@ -163,6 +163,15 @@ def respond (t : JoinTable) (op : String) (args : List Bytes) : String :=
   | "cli.update", ue :: us :: un :: we :: ws :: wn :: arg :: files =>
     let r := Cli.updateCmd (tableEngine t) ⟨ue, us, un, we, ws, wn⟩ Parser.sortedOrd Parser.sortedOrd (decodeTree files) arg
     treeResp ⟨r.tree, r.ok⟩
+  | "cli.compareAll", gh :: ue :: us :: un :: we :: ws :: wn :: files =>
+    let tr := decodeTree files
+    let r := Cli.compareAll (tableEngine t) ⟨ue, us, un, we, ws, wn⟩ Parser.sortedOrd Parser.sortedOrd (gh == ['1']) tr tr
+    -- in GitHub mode an out-of-date rule is not named on stdout (only the closing ::error:: line is printed)
+    "ok " ++ (if r.ok then "01" else "00") ++ " " ++ toHexArg (joinCh ',' r.unchanged) ++ " " ++
+      toHexArg (if gh == ['1'] then [] else joinCh ',' r.changed)
+  | "cli.compare", ue :: us :: un :: we :: ws :: wn :: arg :: files =>
+    let r := Cli.compareCmd (tableEngine t) ⟨ue, us, un, we, ws, wn⟩ Parser.sortedOrd Parser.sortedOrd (decodeTree files) arg
+    "ok " ++ (if r.ok then "01" else "00") ++ " " ++ toHexArg (joinCh ',' r.unchanged) ++ " " ++ toHexArg (joinCh ',' r.changed)
   | "cli.updateAll", ue :: us :: un :: we :: ws :: wn :: files =>
     let tr := decodeTree files
     treeResp (Cli.updateAll (tableEngine t) ⟨ue, us, un, we, ws, wn⟩ Parser.sortedOrd Parser.sortedOrd {} tr tr)
